@@ -149,6 +149,14 @@ func exprD(v ssa.Value, d int, onpath map[ssa.Value]bool) string {
 				}
 			}
 		}
+		// a named local variable keeps its name; literals and temporaries do not
+		switch x.Comment {
+		case "", "complit", "varargs", "slicelit", "new", "makeslice", "makemap", "typeassert,ok", "arraylit":
+		default:
+			if !strings.ContainsAny(x.Comment, " ,()") {
+				return x.Comment
+			}
+		}
 		return "alloc(" + typeStr(x.Type()) + ")"
 	case *ssa.FieldAddr:
 		return r(x.X) + "." + fieldLeaf(fieldName(x))
